@@ -3,7 +3,7 @@
 # run the quick check of the property it breaks (meta.json: property) against it, and report caught / missed.
 # Never touches /repo's working tree, /verif/evidence or /verif/violations. Exit 0 iff every change is caught.
 set -uo pipefail
-V=/verif
+V=$(cd "$(dirname "$(readlink -f "$0")")/.." && pwd)
 OUT=${VERIF_SEEDED_OUT:-/tmp/verif-seeded-out}
 mkdir -p "$OUT"
 names=("$@")
